@@ -395,6 +395,15 @@ func c09Endurance(c *Ctx) {
 		return def + "定义记：\n\t其深 = 0\n令器 = （新建记）\n如何下？\n\t输入层、底、物\n\t物之深 = 层\n\t如果 层 == 底：\n\t\t抛出" + cls + "：“底”！\n\t输出（下：层 + 1、底、物）\n\n\t拦截" + cls + "：\n\t\t输出 层\n" +
 			fmt.Sprintf("令果 = （下：1、%d、器）\n输出【果 == 器之深，器之深 <= %d，果】\n", d, d)
 	}
+	// the interpreter's own limits raise ordinary exceptions: a handler takes them, and afterwards
+	// the program goes on as if the protected body had returned normally (the quiescent invariants
+	// below - call stack, scope depth, evaluation depth - are read after the run)
+	lit12o, lit12c := strings.Repeat("【", 12), strings.Repeat("】", 12)
+	cases = append(cases,
+		ec{"limit-fault-handled/evaluation-depth", "如何深？\n\t输入层\n\t输出" + lit12o + "（深：层 + 1）" + lit12c + "\n如何试？\n\t输出（深：1）\n\n\t拦截异常：\n\t\t输出 “handled”\n令一 = （试）\n令二 = （试）\n输出【一，二，1 + 1】\n", `list[text("handled"),text("handled"),num(2)]`},
+		ec{"limit-fault-handled/call-depth", "如何深？\n\t输入层\n\t输出（深：层 + 1）\n如何试？\n\t输出（深：1）\n\n\t拦截异常：\n\t\t输出 “handled”\n令一 = （试）\n令二 = （试）\n输出【一，二，1 + 1】\n", `list[text("handled"),text("handled"),num(2)]`},
+		ec{"limit-fault-handled/evaluation-depth-in-operands", "如何深？\n\t输入层\n\t输出 " + strings.Repeat("{1 + ", 12) + "（深：层 + 1）" + strings.Repeat("}", 12) + "\n如何试？\n\t输出（深：1）\n\n\t拦截异常：\n\t\t输出 “handled”\n输出【（试），（试）】\n", `list[text("handled"),text("handled")]`},
+	)
 	for _, d := range []int{1, 2, 3, 50, 1000, 10000, 19000, 19990, 19995, 19996, 19997, 19998, 19999, 20000, 20001, 20002, 20005, 25000} {
 		want := fmt.Sprintf("list[bool(true),bool(true),num(%d)]", d)
 		if d > 19000 {
